@@ -43,6 +43,7 @@ pub mod verif_hooks {
   pub use crate::trait_object::base::{AsAny, EqObj, HashObj};
   pub use crate::trait_object::collection::TypeToAnyMap;
   pub use crate::trait_object::task::{OutputCheckerObj, TaskObj};
+  pub use crate::pie::Tracking;
 }
 
 /// Trait alias for types that are used as values: types that can be cloned, debug formatted, and contain no
